@@ -212,9 +212,30 @@ def parse_cex(line):
 
 
 # ---------------------------------------------------------------- to / from Python objects
+class _Wildcard(object):
+    """a default value that compares equal to everything (like unittest.mock.ANY): only used
+    by soundness-only batches, never in a comparison with the model (default value 3)"""
+    def __eq__(self, other):
+        return True
+
+    def __ne__(self, other):
+        return False
+
+    def __hash__(self):
+        return 3
+
+    def __repr__(self):
+        return '<ANY>'
+
+
+WILDCARD = _Wildcard()
+
+
 def py_default(v):
     if v is None:
         return P.empty
+    if v == 3:
+        return WILDCARD
     if v == 0:
         return None
     if v == 2:
@@ -226,6 +247,8 @@ def py_default(v):
 def desc_default(v):
     if v is P.empty:
         return None
+    if v is WILDCARD:
+        return 3
     if v is None:
         return 0
     if isinstance(v, float) and v == 2.0:
